@@ -146,6 +146,8 @@ def check_target(case: typing.Any, ctx: Ctx) -> Info:
         for x in defs:
             _write_def(root, file_name(x, unreg), def_text(x))
         res, ex = guarded(pydsdl.read_namespace, root, [], None, unreg, allowed=(pydsdl.InvalidDefinitionError,), what="read_namespace")
+        written = {os.path.realpath(os.path.join(root, file_name(x, unreg))) for x in defs}
+        error_path_ok = ex is None or (ex.path is not None and os.path.realpath(str(ex.path)) in written)
     finally:
         ctx.cleanup(d)
     where = ("unregulated ports allowed: " if unreg else "") + ", ".join(file_name(x, unreg) + ("{%s}" % def_text(x).replace("\n", ";")) for x in defs)
@@ -154,6 +156,8 @@ def check_target(case: typing.Any, ctx: Ctx) -> Info:
         require(len(res) == len(defs), "conforming-set-size", len(defs), len(res), where)
     else:
         require(ex is not None, "violating-set-accepted:" + v, "InvalidDefinitionError (%s)" % v, "accepted", where)
+        # the rejection names one of the definitions of the set (which of the conflicting ones is not prescribed)
+        require(error_path_ok, "cross-definition-error-without-a-definition-path", "path of one of the definitions", str(ex.path), where + "\n" + str(ex))
     names = [x["name"] for x in defs]
     ports = [(x["service"], x["port"]) for x in defs if x["port"] is not None]
     shared = len(set(names)) < len(names) or len(set(ports)) < len(ports)
